@@ -6,6 +6,7 @@ import (
 	"fmt"
 	"go/token"
 	"go/types"
+	"strings"
 
 	"golang.org/x/tools/go/ssa"
 )
@@ -500,4 +501,96 @@ func c02CallbacksOutsideLocks(c *Ctx, r *Result, lfs *LockFlows) {
 		})
 	}
 	r.Floor("R02h", n, 1)
+}
+
+// ---- R15j: no lock of the debug front end is held across code that can suspend ---------------------
+
+// Evaluating ECAL code under a debugger can suspend the evaluating goroutine (VisitState waits on
+// the thread's condition). A mutex of the debug server held across such a call is then held for as
+// long as the thread is suspended: the continue command that would release the thread arrives on
+// another connection and blocks on that mutex. Rule (package cli/tool): where a sync.Mutex /
+// RWMutex of the package may be held, no call is made whose callees (class-hierarchy graph) can
+// reach sync.Cond.Wait.
+func c15NoLockAcrossSuspension(c *Ctx, r *Result, lfs *LockFlows) {
+	// functions that can reach Cond.Wait: reverse closure over the call graph
+	cg := c.CHA()
+	canWait := map[*ssa.Function]bool{}
+	var work []*ssa.Function
+	for fn, node := range cg.Nodes {
+		if fn == nil {
+			continue
+		}
+		if fn.Name() == "Wait" && fn.Pkg != nil && fn.Pkg.Pkg.Path() == "sync" && fn.Signature.Recv() != nil && strings.Contains(fn.Signature.Recv().Type().String(), "Cond") {
+			canWait[fn] = true
+			work = append(work, fn)
+			_ = node
+		}
+	}
+	for len(work) > 0 {
+		fn := work[len(work)-1]
+		work = work[:len(work)-1]
+		node := cg.Nodes[fn]
+		if node == nil {
+			continue
+		}
+		for _, e := range node.In {
+			cf := e.Caller.Func
+			if cf != nil && !canWait[cf] && (c.inModule(cf) || cf.Synthetic != "") {
+				canWait[cf] = true
+				work = append(work, cf)
+			}
+		}
+	}
+	n := 0
+	for _, fn := range c.ModFuncs() {
+		if c.PkgOf(fn) != "cli/tool" {
+			continue
+		}
+		lf := lfs.Of(fn)
+		if lf == nil || len(lf.Ops) == 0 {
+			continue
+		}
+		key := c.FuncKey(fn)
+		ord := newOrdinals()
+		allInstrs(fn, func(in ssa.Instruction) {
+			ci, ok := in.(ssa.CallInstruction)
+			if !ok {
+				return
+			}
+			if _, isOp := lockOpOf(in); isOp {
+				return
+			}
+			if _, isDefer := in.(*ssa.Defer); isDefer {
+				return
+			}
+			held := lf.MayHoldClasses(in)
+			var own []string
+			for _, h := range held {
+				if strings.HasPrefix(h, "tool.") || strings.HasPrefix(h, "cli/tool.") {
+					own = append(own, h)
+				}
+			}
+			if len(own) == 0 {
+				return
+			}
+			n++
+			suspends := ""
+			for _, callee := range c.Callees(ci) {
+				if canWait[callee] && c.inModule(callee) {
+					suspends = c.FuncKey(callee)
+					break
+				}
+			}
+			site := ord.key(key, "call-under-lock", callName(in))
+			pos := c.Pos(c.InstrPos(in))
+			if suspends == "" {
+				r.Instance("R15j", site, pos, "ok", "no callee can reach a condition wait", true)
+				return
+			}
+			r.Instance("R15j", site, pos, "finding", fmt.Sprintf("%v held across %s, which can suspend", own, suspends), true)
+			r.Report(Finding{Rule: "R15j", Site: site, Pos: pos,
+				Msg: fmt.Sprintf("%s: %v may be held across the call of %s, which can reach a condition wait (a thread suspended at a breakpoint): the lock stays held while the thread is suspended, and the continue command that would release it — arriving on another connection — blocks on the same lock", key, own, suspends)})
+		})
+	}
+	r.Extra["calls_under_a_front_end_lock"] = n
 }
